@@ -354,6 +354,9 @@ func c07Targeted() []string {
 		"vars: {v: {a: 1}}\n**: ${v}",
 		"vars: {m: {p: q}}\nx\n***.a: {...${m}}",
 		"classes: {c: {class: c}}\nx.class: c",
+		"classes: {c: {x.class: c}}\ny.class: c",
+		"k: {shape: class}\nk.f: {_.j <- l}",
+		"t: {shape: sql_table; id: int}\nt.id: {_.j -> l}",
 		"vars: {m: {p: q}; **: ${m}}\nx: ${m}",
 		"vars: {m: {p: q}}\n**.a: ${m}\nl: {...${m}}",
 		"vars: {m: {p: q}}\nvars: {*: {...${m}}}\n",
@@ -442,6 +445,41 @@ func c07Len(s string, u16 bool) int {
 //     declaration and board; a 60-byte program burns minutes of CPU.
 func c07HangTrigger(text string, files map[string]string) string {
 	srcs := append([]string{text}, c07SortedValues(files)...)
+	// class-reference-inside-class-body: a `class` reference on an object nested inside a
+	// class definition (`classes: {c: {x.class: c}}\ny.class: c`): the graph compiler
+	// expands class c into y, creates y.x, expands c again into it, without end. (The direct
+	// form `c: {class: c}` was repaired by f2a99de7b and terminates.)
+	for _, src := range srcs {
+		low := strings.ToLower(src)
+		for off := 0; ; {
+			i := strings.Index(low[off:], "classes")
+			if i < 0 {
+				break
+			}
+			off += i + 7
+			j := off
+			for j < len(low) && (low[j] == ' ' || low[j] == ':') {
+				j++
+			}
+			if j >= len(low) || low[j] != '{' {
+				continue
+			}
+			depth, k := 0, j
+			for ; k < len(low); k++ {
+				if low[k] == '{' {
+					depth++
+				} else if low[k] == '}' {
+					depth--
+					if depth == 0 {
+						break
+					}
+				}
+			}
+			if ext := low[j:k]; strings.Contains(ext, "class:") || strings.Contains(ext, "class :") || strings.Contains(ext, "@") {
+				return "class-reference-inside-class-body"
+			}
+		}
+	}
 	// glob-inside-vars-with-substitution: a glob key written inside a `vars` map matches
 	// the variables themselves; with a substitution as value a variable is substituted
 	// into itself without end (`vars: {m: {p: q}; **: ${m}}`, `vars: {*: {...${m}}}`).
